@@ -355,7 +355,7 @@ func cleanValue(v any) bool {
 // hasRef reports whether e refers to a local.
 func (e Expr) hasRef() bool { return e.Kinds()["ref"] }
 
-// AddLocals adds 1-3 `locals` blocks to m and rewrites part of the attributes
+// AddLocals adds 0-3 `locals` blocks to m and rewrites part of the attributes
 // as HCL-only expressions (m.Exprs). The plain value of every rewritten
 // attribute is replaced by what Eval computes for its expression, so the YAML
 // rendering shows the evaluated description. Scenario `requests` lists keep
@@ -364,6 +364,10 @@ func AddLocals(t *rapid.T, m *Model, o Opts) {
 	g := &lgen{sgen: sgen{t: t, opts: o}, visible: Env{}, types: map[string]string{}}
 	m.Exprs = map[string]Expr{}
 	nb := 1 + uniform(t, "locals#blocks", 3)
+	if g.chance("locals?none", 18) {
+		// no `locals` block at all: the HCL-only functions are still there for every attribute
+		nb = 0
+	}
 	decl := map[string]Expr{} // first declaration of each local
 	for b := 0; b < nb; b++ {
 		bl := fmt.Sprintf("locals[%d]", b)
@@ -639,6 +643,9 @@ func (g *lgen) wrapList(path string, l []string, m *Model) (Expr, bool) {
 		return Expr{}, false
 	default:
 		// a local declared in the first block holds the list
+		if len(m.Locals) == 0 {
+			return Expr{}, false
+		}
 		name := fmt.Sprintf("steps_%d", len(m.Locals[0].Locals))
 		if g.types[name] != "" {
 			return Expr{}, false
